@@ -80,6 +80,15 @@ Fixpoint cut_prefix (p s : string) : option string :=
     end
   end.
 
+(** strings.Cut(s, c) for a single-byte separator: the text before the first [c] and the text after it;
+    the whole text and "" when there is none *)
+Fixpoint cut_at (c : ascii) (s : string) : string * string :=
+  match s with
+  | EmptyString => (EmptyString, EmptyString)
+  | String a r => if Ascii.eqb a c then (EmptyString, r)
+                  else let '(x, y) := cut_at c r in (String a x, y)
+  end.
+
 Definition nonempty (s : string) : bool := negb (String.eqb s "").
 
 Fixpoint join (sep : string) (l : list string) : string :=
@@ -275,6 +284,11 @@ Section Oracle.
       fix: f446e16, before it Query().Encode()), [None] on error *)
   Variable parse_uri : string -> option (string * string).
 
+  (** path and query of an X-Forwarded-Uri value: as url.Parse reads it; a value that does not parse is
+      used as received, cut at the first "?" (fix: d3f6cd7; before it such a value was ignored) *)
+  Definition read_uri (v : string) : string * string :=
+    match parse_uri v with Some pq => pq | None => cut_at "?" v end.
+
   Definition actual_scheme (c : conn) : string := if c_tls c then "https" else "http".
 
   (** extractURL *)
@@ -282,7 +296,7 @@ Section Oracle.
     let proto := let p := get XFP h in if nonempty p then p else actual_scheme c in
     let host := let x := get XFH h in if nonempty x then x else c_host c in
     let pq := let v := get XFU h in
-              if nonempty v then match parse_uri v with Some pq => pq | None => ("", "") end
+              if nonempty v then read_uri v
               else ("", "") in
     let rawpath := if nonempty (fst pq) then fst pq else c_escpath c in
     let query := if nonempty (snd pq) then snd pq else c_rawquery c in
